@@ -154,9 +154,30 @@ def run(rep, tier, seed, keep=False):
         nrun = 0
         nswitch = 0
 
-        def run_schedule(assign, schedule):
-            """assign: list of (stmt index, data); schedule: list of thread ids (1-based)"""
-            nonlocal nrun, nswitch, chain0
+        # a second shared context, assembled by the host by hand (no '#finalize' in its chain)
+        hand = c09.hand_context()
+        hand['cfg'] = {'k': [1, 2, 3]}
+        hand_chain0 = c09.snap_chain(hand)
+        hbase = {}
+
+        def norm(o):
+            if o[0] == 'ok' and hasattr(o[1], '__next__'):
+                return ('ok', list(o[1]))
+            return o
+
+        def baseline_hand(i, d):
+            k = (i, repr(d))
+            if k not in hbase:
+                alone = c09.hand_context()
+                alone['cfg'] = {'k': [1, 2, 3]}
+                hbase[k] = norm(outcome(lambda: yaql.YaqlFactory().create()(POOL[i]).evaluate(data=copy.deepcopy(d), context=alone.create_child_context())))
+            return hbase[k]
+
+        def run_schedule(assign, schedule, base=None):
+            """assign: list of (stmt index, data); schedule: list of thread ids (1-based); base: the shared context (default: the prepared one)"""
+            nonlocal nrun, nswitch, chain0, hand_chain0
+            on_hand = base is not None
+            shared_ = base if on_hand else shared
             s = sched.Scheduler(schedule, timeout=20.0)
             p = gates_patch(s)
             rec.new_trace()
@@ -165,7 +186,7 @@ def run(rep, tier, seed, keep=False):
             for tid, (i, d) in enumerate(assign, 1):
                 dd = copy.deepcopy(d)
                 datas[tid] = (dd, copy.deepcopy(d))
-                ctx = shared.create_child_context()      # each thread evaluates in its own child (created by the host)
+                ctx = shared_.create_child_context()      # each thread evaluates in its own child (created by the host)
 
                 def body(tid=tid, i=i, dd=dd, ctx=ctx):
                     rec.begin(tid, ctx)
@@ -188,13 +209,19 @@ def run(rep, tier, seed, keep=False):
                 if got is None or got[0] == 'deadlock':
                     raise RuntimeError('scheduler failure: %r %r' % (got, case))
                 g = ('ok', got[1]) if got[0] == 'ok' else ('exc', type(got[1]).__name__)
-                b = baseline(i, d)
+                b = baseline_hand(i, d) if on_hand else baseline(i, d)
+                if on_hand:
+                    g = norm(g)
                 if not same(g, b):
                     rep.violation('C18/schedule/result-differs', 'thread %d evaluating %r on %r under schedule %s gave %r, alone it gives %r' % (
                         tid, POOL[i], d, schedule, g, b), case)
                 if not c09.deep_eq(datas[tid][0], datas[tid][1]):
                     rep.violation('C18/schedule/data-mutated', 'thread %d: %r changed its data' % (tid, POOL[i]), case)
-            if c09.snap_chain(shared) != chain0:
+            if on_hand:
+                if c09.snap_chain(hand) != hand_chain0:
+                    rep.violation('C18/schedule/hand-built-shared-context-changed', 'hand-assembled shared context changed after %r' % (case,), case)
+                    hand_chain0 = c09.snap_chain(hand)
+            elif c09.snap_chain(shared) != chain0:
                 rep.violation('C18/schedule/shared-context-changed', 'shared context changed after %r' % (case,), case)
                 chain0 = c09.snap_chain(shared)
             if nrun % 499 == 1:
@@ -210,6 +237,12 @@ def run(rep, tier, seed, keep=False):
             pick = ss if len(ss) <= (12 if quick else 60) else rng.sample(ss, 12 if quick else 60)
             for sc in pick:
                 run_schedule([(i, DATAS[0]), (j, DATAS[1] if i != j else rng.choice(DATAS))], sc)
+        # the same on the hand-assembled shared context (cold: nothing has been evaluated on it before the first schedule)
+        for (i, j) in (same_pairs[:6] + pairs[:(10 if quick else 200)]):
+            k = (max(min(steps[i], 5), 2), max(min(steps[j], 5), 2))
+            ss = sched2.get(k, [])
+            for sc in (ss if len(ss) <= 4 else rng.sample(ss, 4)):
+                run_schedule([(i, DATAS[0]), (j, DATAS[1])], sc, base=hand)
         tri = [tuple(rng.sample(range(len(POOL)), 3)) for _ in range(10 if quick else 150)] + [(6, 6, 6), (7, 6, 7)]
         for t3 in tri:
             ss = sched3[(3, 3, 3)]
